@@ -259,6 +259,24 @@ pub struct BatchReport {
 
 /// Run `sc` over run indices 0.. on `threads` threads until the budget is used up or a
 /// violation is found (collection stops at the first few violations).
+/// Kernel thread id of the calling thread (Linux: `/proc/thread-self` -> `<pid>/task/<tid>`)
+fn own_tid() -> Option<u64> {
+    let link = std::fs::read_link("/proc/thread-self").ok()?;
+    link.file_name()?.to_str()?.parse().ok()
+}
+
+/// CPU time (user + system) consumed so far by thread `tid` of this process, in milliseconds
+fn thread_cpu_ms(tid: u64) -> Option<u64> {
+    let stat = std::fs::read_to_string(format!("/proc/self/task/{tid}/stat")).ok()?;
+    // Fields after the parenthesised command name; utime and stime are the 14th and 15th fields
+    let rest = &stat[stat.rfind(')')? + 1..];
+    let f: Vec<&str> = rest.split_whitespace().collect();
+    let utime: u64 = f.get(11)?.parse().ok()?;
+    let stime: u64 = f.get(12)?.parse().ok()?;
+    // Clock ticks are 100 per second on Linux (USER_HZ)
+    Some((utime + stime) * 10)
+}
+
 pub fn batch(
     sc: &dyn Scenario,
     base_seed: u64,
@@ -273,6 +291,8 @@ pub fn batch(
     // Watchdog state per worker: run index + 1 currently executing (0 = none), and when it started
     let cur_run: Vec<AtomicU64> = (0..threads).map(|_| AtomicU64::new(0)).collect();
     let cur_since: Vec<AtomicU64> = (0..threads).map(|_| AtomicU64::new(0)).collect();
+    // Kernel thread id of each worker (for its CPU time)
+    let worker_tid: Vec<AtomicU64> = (0..threads).map(|_| AtomicU64::new(0)).collect();
     let workers_done = AtomicU64::new(0);
     let run_timeout_ms = std::env::var("VERIF_RUN_TIMEOUT_S").ok().and_then(|v| v.parse::<u64>().ok()).unwrap_or(120) * 1000;
 
@@ -301,26 +321,44 @@ pub fn batch(
 
     std::thread::scope(|s| {
         // A run which does not come back (a loop inside one poll of the code under test cannot be
-        // bounded by the step limit) is reported by the watchdog, which then ends the process
-        s.spawn(|| loop {
-            std::thread::sleep(Duration::from_millis(250));
-            if workers_done.load(Ordering::Relaxed) as usize >= threads {
-                break;
-            }
-            let now = start.elapsed().as_millis() as u64;
-            for w in 0..threads {
-                let r = cur_run[w].load(Ordering::Relaxed);
-                if r != 0 && now.saturating_sub(cur_since[w].load(Ordering::Relaxed)) > run_timeout_ms {
-                    on_hang(run_seed(base_seed, r - 1), r - 1, run_timeout_ms / 1000);
+        // bounded by the step limit) is reported by the watchdog, which then ends the process.
+        // The limit is CPU time of the worker thread spent on that one run (sampled by the
+        // watchdog), not wall-clock time: a stalled or overloaded machine makes runs slow, it does
+        // not make them burn minutes of CPU.
+        s.spawn(|| {
+            let mut seen_run: Vec<u64> = vec![0; threads];
+            let mut cpu_at_seen: Vec<u64> = vec![0; threads];
+            loop {
+                std::thread::sleep(Duration::from_millis(250));
+                if workers_done.load(Ordering::Relaxed) as usize >= threads {
+                    break;
+                }
+                for w in 0..threads {
+                    let r = cur_run[w].load(Ordering::Relaxed);
+                    let tid = worker_tid[w].load(Ordering::Relaxed);
+                    if r == 0 || tid == 0 {
+                        seen_run[w] = 0;
+                        continue;
+                    }
+                    let Some(cpu_ms) = thread_cpu_ms(tid) else {
+                        continue;
+                    };
+                    if seen_run[w] != r {
+                        seen_run[w] = r;
+                        cpu_at_seen[w] = cpu_ms;
+                    } else if cpu_ms.saturating_sub(cpu_at_seen[w]) > run_timeout_ms {
+                        on_hang(run_seed(base_seed, r - 1), r - 1, run_timeout_ms / 1000);
+                    }
                 }
             }
         });
         for w in 0..threads {
-            let (cur_run, cur_since, workers_done) = (&cur_run, &cur_since, &workers_done);
+            let (cur_run, cur_since, workers_done, worker_tid) = (&cur_run, &cur_since, &workers_done, &worker_tid);
             let (next, stop, acc) = (&next, &stop, &acc);
             std::thread::Builder::new()
                 .stack_size(256 << 20)
                 .spawn_scoped(s, move || {
+                    worker_tid[w].store(own_tid().unwrap_or(0), Ordering::Relaxed);
                     let mut local = Acc {
                         runs: 0,
                         sim_time_us: 0,
